@@ -14,16 +14,18 @@ VARIABLES
   regs,       \* segments in the writer's registers: set of [sid, delop] (from the hook)
   metaSegs,   \* segments of the newest meta.json: set of [sid, delop]
   segOf,      \* path -> [sid, ext, delop] for segment files seen so far
+  faulted,    \* an injected I/O error has fired in this run: what is durable is unknown from here on, and a
+              \* crash on top of it is a second fault (the crash invariants are not evaluated any more)
   building    \* segments known to be under construction right now (gate-forced GC races only:
               \* the thread creating them is parked by the harness)
 
-tvars == <<svars, l, callIdx, ackedIdx, regs, metaSegs, segOf, building>>
+tvars == <<svars, l, callIdx, ackedIdx, regs, metaSegs, segOf, building, faulted>>
 Ev == Rec[l]
 SeqToSet(s) == {s[i] : i \in 1..Len(s)}
 Put(f, k, v) == (k :> v) @@ f    \* eager (a function constructor here builds nested lazy closures)
 Known(tag) == PrintT(<<"KF", tag, l>>)
 
-Same == UNCHANGED <<callIdx, ackedIdx, regs, metaSegs, segOf, building>>
+Same == UNCHANGED <<callIdx, ackedIdx, regs, metaSegs, segOf, building, faulted>>
 
 SegRec(e) == [sid |-> e.sid, ext |-> e.ext, delop |-> e.delop]
 
@@ -45,13 +47,13 @@ TReset ==
   /\ Ev.e = "reset"
   /\ exists' = {} /\ entDur' = {} /\ termd' = {} /\ ghosts' = {} /\ live' = {}
   /\ metaV' = <<[files |-> {}, op |-> 0]>> /\ metaDur' = 0 /\ manV' = <<{}>> /\ manDur' = 0
-  /\ callIdx' = 1 /\ ackedIdx' = 1 /\ regs' = {} /\ metaSegs' = {} /\ segOf' = <<>> /\ building' = {}
+  /\ callIdx' = 1 /\ ackedIdx' = 1 /\ regs' = {} /\ metaSegs' = {} /\ segOf' = <<>> /\ building' = {} /\ faulted' = FALSE
 
 TCreate ==
   /\ Ev.e = "create"
   /\ Create(Ev.p)
   /\ segOf' = IF "sid" \in DOMAIN Ev THEN Put(segOf, Ev.p, SegRec(Ev)) ELSE segOf
-  /\ UNCHANGED <<callIdx, ackedIdx, regs, metaSegs, building>>
+  /\ UNCHANGED <<callIdx, ackedIdx, regs, metaSegs, building, faulted>>
 
 TTerm == Ev.e = "term" /\ Terminate(Ev.p) /\ Same
 TDropW == Ev.e = "dropw" /\ DropWriter(Ev.p) /\ Same
@@ -72,7 +74,7 @@ TMeta ==
   /\ ("synced" \in DOMAIN Ev => Ev.synced)
   /\ AWriteMeta(SeqToSet(Ev.files), Ev.op)
   /\ metaSegs' = SeqToSet(Ev.segs)
-  /\ UNCHANGED <<callIdx, ackedIdx, regs, segOf, building>>
+  /\ UNCHANGED <<callIdx, ackedIdx, regs, segOf, building, faulted>>
 
 TMan ==
   /\ Ev.e = "man"
@@ -82,12 +84,12 @@ TMan ==
 TRegs ==
   /\ Ev.e = "regs"
   /\ regs' = SeqToSet(Ev.segs)
-  /\ UNCHANGED <<svars, callIdx, ackedIdx, metaSegs, segOf, building>>
+  /\ UNCHANGED <<svars, callIdx, ackedIdx, metaSegs, segOf, building, faulted>>
 
 TCall ==
   /\ Ev.e = "call"
   /\ callIdx' = Len(metaV)
-  /\ UNCHANGED <<svars, ackedIdx, regs, metaSegs, segOf, building>>
+  /\ UNCHANGED <<svars, ackedIdx, regs, metaSegs, segOf, building, faulted>>
 
 \* commit returned Ok: the version it wrote must already be durable (C01 clause 2)
 TCommitRet ==
@@ -97,20 +99,20 @@ TCommitRet ==
         /\ \A j \in (callIdx + 1)..(i - 1) : metaV[j].op # Ev.op
         /\ ackedIdx' = i
         /\ Lo(metaDur) >= i                                  \* CrashDurable
-  /\ UNCHANGED <<svars, callIdx, regs, metaSegs, segOf, building>>
+  /\ UNCHANGED <<svars, callIdx, regs, metaSegs, segOf, building, faulted>>
 
 \* rollback / new writer / drop / wait_merging_threads: the registers are rebuilt from meta.json
 TFresh ==
   /\ Ev.e = "fresh"
   /\ regs' = metaSegs
-  /\ UNCHANGED <<svars, callIdx, ackedIdx, metaSegs, segOf, building>>
+  /\ UNCHANGED <<svars, callIdx, ackedIdx, metaSegs, segOf, building, faulted>>
 
 \* explicit garbage collection returned (other threads may be active: only `nothing needed is
 \* missing` is claimed here; `nothing else is left` is claimed at the quiescent end of the run)
 TGc2 ==
   /\ Ev.e = "gc"
   /\ metaV[Len(metaV)].files \subseteq exists
-  /\ UNCHANGED <<svars, callIdx, ackedIdx, regs, metaSegs, segOf, building>>
+  /\ UNCHANGED <<svars, callIdx, ackedIdx, regs, metaSegs, segOf, building, faulted>>
 
 \* quiescent end of a run (commit returned, merges waited for, GC ran): exactly the committed
 \* files are left and the persisted managed list matches them (C10)
@@ -121,20 +123,21 @@ TEnd ==
   /\ SeqToSet(Ev.managed) = exists \cup {"meta.json"}
   /\ manV[Len(manV)] = SeqToSet(Ev.managed)
   /\ live = {}
-  /\ UNCHANGED <<svars, callIdx, ackedIdx, regs, metaSegs, segOf, building>>
+  /\ UNCHANGED <<svars, callIdx, ackedIdx, regs, metaSegs, segOf, building, faulted>>
 
 TBuild ==
   /\ Ev.e \in {"build_start", "build_end"}
   /\ building' = IF Ev.e = "build_start" THEN building \cup {Ev.sid} ELSE building \ {Ev.sid}
-  /\ UNCHANGED <<svars, callIdx, ackedIdx, regs, metaSegs, segOf>>
+  /\ UNCHANGED <<svars, callIdx, ackedIdx, regs, metaSegs, segOf, faulted>>
 
-TNext ==
+TFault ==
+  /\ Ev.e = "fault" /\ faulted' = TRUE
+  /\ UNCHANGED <<svars, callIdx, ackedIdx, regs, metaSegs, segOf, building>>
+
+TStep ==
   /\ l <= Len(Rec) /\ l' = l + 1
   /\ \/ TReset \/ TCreate \/ TTerm \/ TDropW \/ TDelete \/ TSync \/ TMeta \/ TMan \/ TRegs
-     \/ TCall \/ TCommitRet \/ TFresh \/ TGc2 \/ TEnd \/ TBuild
-
-TInit == SInit /\ l = 1 /\ callIdx = 1 /\ ackedIdx = 1 /\ regs = {} /\ metaSegs = {} /\ segOf = <<>> /\ building = {}
-TSpec == TInit /\ [][TNext]_tvars
+     \/ TCall \/ TCommitRet \/ TFresh \/ TGc2 \/ TEnd \/ TBuild \/ TFault
 
 \* state invariants, evaluated after every event = at every crash point of the run
 InvCrashSafe == CrashSafe
@@ -142,6 +145,17 @@ InvDurable == Lo(metaDur) >= ackedIdx
 \* C10 crash clause: no image holds a file that is neither referenced nor managed; the recorded
 \* class F4 (registration not yet durable) is reported once, anything else is a violation
 InvNoOrphan == IF CrashNoOrphan THEN TRUE ELSE (OrphanIsF4Class /\ Known("F4 crash image with a file whose registration in .managed.json is not durable"))
+
+\* The invariants are evaluated on the successor state INSIDE the step (a violated one leaves the
+\* event unexplained and names itself): declared as INVARIANTs, TLC would print an error trace as long
+\* as the validated trace - gigabytes for the thorough tier, and cut at an arbitrary point.
+Chk(name, ok) == IF ok THEN TRUE ELSE Print(<<"INVFAIL", name, l>>, FALSE)
+TNext == TStep /\ Chk("InvCrashSafe", InvCrashSafe') /\ Chk("InvDurable", InvDurable') /\ Chk("InvNoOrphan", InvNoOrphan')
+TNextCrash == TStep /\ (IF faulted' THEN TRUE ELSE Chk("InvCrashSafe", InvCrashSafe') /\ Chk("InvDurable", InvDurable'))
+
+TInit == SInit /\ l = 1 /\ callIdx = 1 /\ ackedIdx = 1 /\ regs = {} /\ metaSegs = {} /\ segOf = <<>> /\ building = {} /\ faulted = FALSE
+TSpec == TInit /\ [][TNext]_tvars
+TSpecCrash == TInit /\ [][TNextCrash]_tvars
 
 Accepted ==
   IF TLCGet("stats").diameter - 1 = Len(Rec) THEN TRUE
